@@ -1,1 +1,2 @@
 import MC.Props.C18
+import MC.Props.C17
